@@ -36,6 +36,7 @@ type Case struct {
 	Mode       Mode
 	Direct     []string // direct property failures found on the Go side (empty = none)
 	NonTrivial bool
+	AllowGoErr bool   // the relation lets the library refuse (answer `err`) on this input
 	Tag        string // generator branch, for the distribution
 	Desc       string // short human-readable description for samples
 }
@@ -226,7 +227,9 @@ func (r *Runner) Flush() {
 		m := answers[i]
 		switch c.Mode {
 		case Full:
-			if m != c.Go {
+			if c.AllowGoErr && c.Go == "err" {
+				r.res.Distribution["(library refused, as the relation allows)"]++
+			} else if m != c.Go {
 				r.addFailure(Failure{Kind: "disagreement", Op: c.Op, Args: c.Args, Go: c.Go, Model: m, Detail: firstDiff(c.Go, m), Tag: c.Tag}, false)
 			}
 		case Class:
